@@ -16,16 +16,18 @@ def objects(conn):
 def write_step(rng, conn, state):
     """one committed write transaction by another connection; returns its description"""
     tabs, idx = objects(conn)
-    kinds = ["insert", "insert", "update", "update", "delete", "grow", "reuse", "create_table", "create_index", "drop_index", "drop_table", "alter", "vacuum", "recreate"]
+    kinds = ["insert", "insert", "update", "update", "delete", "grow", "reuse", "create_table", "create_index", "drop_index", "drop_table", "alter", "vacuum", "recreate",
+             "drop_column", "reindex", "point_update", "point_update", "thin"]
     k = rng.choice(kinds)
     t = rng.choice(tabs) if tabs else None
+    state["touched"] = t
     if k in ("insert", "grow") and t:
         n = rng.randint(1, 6) if k == "insert" else rng.randint(60, 200)
         cols = [r[1] for r in conn.execute("PRAGMA table_info(%s)" % t)]
         conn.execute("BEGIN")
         for _ in range(n):
             state["seq"] += 1
-            conn.execute("INSERT INTO %s VALUES(%s)" % (t, ",".join("?" * len(cols))), [rng.choice(WORDS) + str(state["seq"]) if j else state["seq"] for j in range(len(cols))])
+            conn.execute("INSERT OR REPLACE INTO %s VALUES(%s)" % (t, ",".join("?" * len(cols))), [rng.choice(WORDS) + str(state["seq"]) if j else state["seq"] for j in range(len(cols))])
         conn.execute("COMMIT")
         return "%s %d rows into %s" % (k, n, t)
     if k == "update" and t:
@@ -41,7 +43,7 @@ def write_step(rng, conn, state):
         conn.execute("BEGIN")
         for _ in range(40):
             state["seq"] += 1
-            conn.execute("INSERT INTO %s VALUES(%s)" % (t, ",".join("?" * len(cols))), ["re" + str(state["seq"]) if j else state["seq"] for j in range(len(cols))])
+            conn.execute("INSERT OR REPLACE INTO %s VALUES(%s)" % (t, ",".join("?" * len(cols))), ["re" + str(state["seq"]) if j else state["seq"] for j in range(len(cols))])
         conn.execute("COMMIT")
         return "delete half of %s and insert 40 (page reuse)" % t
     if k == "create_table" and len(tabs) < 5:
@@ -84,9 +86,87 @@ def write_step(rng, conn, state):
             conn.execute("INSERT INTO %s VALUES(%s)" % (t, ",".join("?" * len(cols))), r[::-1])
         conn.execute("COMMIT")
         return "drop and recreate %s with reversed columns" % t
+    if k == "drop_column" and t:
+        # a column that no index uses and that is not the first one: the stored records get shorter, later columns move up
+        cols = [r[1] for r in conn.execute("PRAGMA table_info(%s)" % t)]
+        used = set(r[2] for i, tn in idx if tn == t for r in conn.execute("PRAGMA index_info(%s)" % i))
+        pk = set(r[1] for r in conn.execute("PRAGMA table_info(%s)" % t) if r[5])
+        cand = [c for c in cols[1:] if c not in used and c not in pk]
+        if cand and len(cols) > 2:
+            c = rng.choice(cand)
+            try:
+                conn.execute("ALTER TABLE %s DROP COLUMN %s" % (t, c))
+                return "alter table %s drop column %s" % (t, c)
+            except sqlite3.OperationalError:
+                pass
+    if k == "reindex" and idx:
+        # the same index name, another definition (other column, DESC, or a collation)
+        i, tn = rng.choice(idx)
+        state["touched"] = tn
+        cols = [r[1] for r in conn.execute("PRAGMA table_info(%s)" % tn)]
+        c = rng.choice(cols)
+        how = rng.choice(["%s DESC", "%s COLLATE NOCASE", "%s", "%s COLLATE NOCASE DESC"]) % c
+        conn.execute("BEGIN"); conn.execute("DROP INDEX %s" % i); conn.execute("CREATE INDEX %s ON %s(%s)" % (i, tn, how)); conn.execute("COMMIT")
+        return "drop index %s and create it again on %s(%s)" % (i, tn, how)
+    if k == "point_update" and t:
+        # one row changes (and moves in every index on its last column): the page the previous lookup of that row ended on
+        cols = [r[1] for r in conn.execute("PRAGMA table_info(%s)" % t)]
+        r = conn.execute("SELECT rowid FROM %s ORDER BY rowid" % t).fetchall()
+        if r:
+            rid = rng.choice([r[0][0], r[len(r) // 2][0], r[-1][0]])
+            conn.execute("UPDATE %s SET %s = ? WHERE rowid = ?" % (t, cols[-1]), ("!pt%d" % rng.randint(0, 99), rid))
+            return "update row %d of %s" % (rid, t)
+    if k == "thin" and t:
+        # delete the tail of what were full leaves: the separators above them stay
+        conn.execute("DELETE FROM %s WHERE rowid %% 7 IN (4, 5, 6)" % t)
+        return "delete 3 of every 7 rows of %s" % t
     conn.execute("CREATE TABLE IF NOT EXISTS filler(a, b)")
     conn.execute("INSERT INTO filler(a, b) VALUES(1, 2)")
     return "insert into filler"
+
+
+def point_probes(rng, conn):
+    """[(description, command, expected rows)]: point lookups through every high level entry point, on every table / index; the
+    dump argument is '-' (these are not run through the model: the handle must not be asked for its schema first)"""
+    tabs, idx = objects(conn)
+    out = []
+    for t in tabs:
+        info = conn.execute("PRAGMA table_info(%s)" % t).fetchall()
+        cols = [r[1] for r in info]
+        cl = hl.names(cols[::-1])                    # not in table order
+        ids = [r[0] for r in conn.execute("SELECT rowid FROM %s ORDER BY rowid" % t)]
+        picks = sorted(set([ids[0], ids[len(ids) // 2], ids[-1], ids[-1] + 1, ids[len(ids) // 3] + 1] + [rng.choice(ids) for _ in range(2)])) if ids else [1]
+        for rid in picks[::-1]:                      # descending: an absent rowid, then smaller present ones
+            exp = conn.execute("SELECT %s FROM %s WHERE rowid = ?" % (",".join(cols[::-1]), t), (rid,)).fetchall()
+            out.append(("SelectRowid(%s, %d)" % (t, rid), "hselectrowid - %s %d %s" % (hl.hx(t), rid, cl), exp))
+            if any(r[5] for r in info) and len([r for r in info if r[5]]) == 1 and [r for r in info if r[5]][0][2].upper() == "INTEGER":
+                out.append(("PKSelect(%s, %d)" % (t, rid), "hpkselect - %s i%d %s" % (hl.hx(t), rid, cl), exp))
+    for iname, t in idx:
+        cols = [r[1] for r in conn.execute("PRAGMA table_info(%s)" % t)]
+        xi = conn.execute("PRAGMA index_xinfo(%s)" % iname).fetchall()
+        kc = [r for r in xi if r[5]]                 # key columns
+        if len(kc) != 1 or kc[0][2] is None:
+            continue
+        col, desc, coll = kc[0][2], kc[0][3], kc[0][4]
+        vals = [r[0] for r in conn.execute("SELECT DISTINCT %s FROM %s WHERE typeof(%s) IN ('text', 'integer') LIMIT 200" % (col, t, col))]
+        for v in ([vals[0], vals[len(vals) // 2], vals[-1]] if vals else []):
+            exp = conn.execute("SELECT %s FROM %s WHERE %s = ? COLLATE %s ORDER BY %s COLLATE %s %s, rowid" % (",".join(cols), t, col, coll, col, coll, "DESC" if desc else "ASC"), (v,)).fetchall()
+            kv = ("i%d" % v) if isinstance(v, int) else "t" + v.encode().hex()
+            out.append(("IndexedSelectEq(%s, %s, %r)" % (t, iname, v), "hiselecteq - %s %s %s %s" % (hl.hx(t), hl.hx(iname), kv, hl.names(cols)), exp))
+        exp = conn.execute("SELECT %s FROM %s ORDER BY %s COLLATE %s %s, rowid" % (",".join(cols), t, col, coll, "DESC" if desc else "ASC")).fetchall()
+        out.append(("IndexedSelect(%s, %s)" % (t, iname), "hiselect - %s %s %s" % (hl.hx(t), hl.hx(iname), hl.names(cols)), exp))
+    return out
+
+
+def run_probes(run, impl, probes, what, hist, when):
+    for desc, cmd, exp in probes:
+        run.count()
+        i = impl.cmd(cmd)
+        d = hl.same_rows(i, exp) or (None if hl.tail(i)[:1] == ["end ok"] else "ended with %s" % hl.tail(i))
+        if d:
+            run.violation("after [%s], %s: %s: %s" % (what, when, desc, d), {"kind": "impl-vs-sqlite", "history": list(hist), "command": cmd, "when": when, "impl": i[:4] + i[-2:], "sqlite_rows": [sqlfmt.canon_rec(r) for r in exp[:4]]})
+            return False
+    return True
 
 
 def read_round(run, sessions, conn, path, what, hist, dist, compare_model=True):
@@ -136,7 +216,7 @@ def read_round(run, sessions, conn, path, what, hist, dist, compare_model=True):
         f = sc[0].split(" ") if sc else ["?"]
         if len(f) != 3 or f[1] == "err":
             continue
-        kc = [r[2] for r in conn.execute("PRAGMA index_info(%s)" % iname)]
+        kc = ["%s COLLATE %s %s" % (r[2], r[4], "DESC" if r[3] else "ASC") for r in conn.execute("PRAGMA index_xinfo(%s)" % iname) if r[5] and r[2] is not None]
         exp = conn.execute("SELECT %s FROM %s ORDER BY %s, rowid" % (",".join(cols), t, ",".join(kc))).fetchall()
         cmd = "hiselect %s %s %s %s" % (f[1], hl.hx(t), hl.hx(iname), hl.names(cols))
         i = impl.cmd(cmd)
@@ -145,8 +225,10 @@ def read_round(run, sessions, conn, path, what, hist, dist, compare_model=True):
         if d:
             run.violation("after [%s]: IndexedSelect(%s, %s): %s" % (what, t, iname, d), {"kind": "impl-vs-sqlite", "history": list(hist), "command": cmd, "impl": i[:6]})
     # the low level API with explicit RLock / RUnlock
-    if tabs:
-        t = tabs[0]
+    # (a table without an INTEGER PRIMARY KEY: the stored record of such a column is NULL, SELECT shows the rowid)
+    lowtabs = [t for t in tabs if not any(r[5] for r in conn.execute("PRAGMA table_info(%s)" % t))]
+    if lowtabs:
+        t = lowtabs[0]
         root = sqlfmt.root_of(conn, t)
         exp = ["row %d %s" % (r[0], sqlfmt.canon_rec(r[1:])) for r in conn.execute("SELECT rowid, * FROM %s ORDER BY rowid" % t)] + ["end ok"]
         def stored_prefix(o):
@@ -182,7 +264,11 @@ def one_history(run, rng, wd, hid, page_size, steps, rows0, dist, real_file, wit
     conn.execute("CREATE TABLE t(a, b)")
     conn.execute("CREATE TABLE u(k, v)")
     conn.execute("CREATE INDEX t_b ON t(b)")
+    conn.execute("CREATE TABLE p(id INTEGER PRIMARY KEY, v, w)")
+    conn.execute("CREATE INDEX p_v ON p(v)")
     conn.execute("BEGIN")
+    for n in range(min(rows0, 600)):
+        conn.execute("INSERT INTO p VALUES(?, ?, ?)", (n * 3, WORDS[n % 7] + str(n % 50), "w" * (n % 40)))
     for n in range(rows0):
         conn.execute("INSERT INTO t VALUES(?, ?)", (n, WORDS[n % len(WORDS)] + str(n)))
         conn.execute("INSERT INTO u VALUES(?, ?)", (n, "u%d" % n))
@@ -226,7 +312,38 @@ def one_history(run, rng, wd, hid, page_size, steps, rows0, dist, real_file, wit
         dist["writes"][what.split(" ")[0]] = dist["writes"].get(what.split(" ")[0], 0) + 1
         if run.violations:
             break
+        # the FIRST calls of the handle after the commit are point lookups / indexed selects, in a random order (whatever the
+        # handle remembers from before - schemas, pages, positions - the first call must not use it), ...
+        for s_ in (impl, model):
+            if s_:
+                s_.cmd("reload %s" % path)
+        probes = point_probes(rng, conn)
+        first = probes[:]
+        rng.shuffle(first)
+        # the very first call goes to the table the commit touched, its kind (rowid lookup, primary key lookup, equality lookup
+        # through an index, index scan) cycling with the step number
+        kinds_ = ("SelectRowid", "IndexedSelectEq", "PKSelect", "IndexedSelect")
+        tt = state.get("touched")
+        mine = [p_ for p_ in first if tt and p_[0].split("(")[1].split(",")[0].rstrip(")") == tt]
+        for off in range(len(kinds_)):
+            pref = [p_ for p_ in mine if p_[0].startswith(kinds_[(s + off) % len(kinds_)] + "(")]
+            if pref:
+                first.remove(pref[0]); first.insert(0, pref[0])
+                break
+        dist["first_calls"] = dist.get("first_calls", 0) + len(first[:6])
+        dist.setdefault("very_first", {})
+        if first:
+            kf = first[0][0].split("(")[0]
+            dist["very_first"][kf] = dist["very_first"].get(kf, 0) + 1
+        if not run_probes(run, impl, first[:6], what, hist, "the handle's first calls after the commit"):
+            break
         read_round(run, (impl, model), conn, path, what, hist, dist)
+        if run.violations:
+            break
+        # ... and the round ends with all of them in a fixed order: the next round's first calls meet what these left behind
+        dist["point_lookups"] = dist.get("point_lookups", 0) + len(probes)
+        if not run_probes(run, impl, probes, what, hist, "at the end of the read round"):
+            break
     dist["pages_final"].append(os.path.getsize(path) // sqlfmt.page_size_of(path))
     impl.close()
     if model:
